@@ -33,16 +33,16 @@ Proof. exact request_holds. Qed.
 Print Assumptions c19_logout_request_only_current_subject.
 
 (* a LogoutResponse that does not answer a pending request changes nothing — outside the OPEN finding
-   classes: `guard` = no step of the trace is a trigger of class 1 (global logout with an IdP asked over
-   SOAP) or class 4 (a party answers a second, moot request of a logout in progress after it has
-   already answered) *)
+   classes: `guard` = no step of the trace is a trigger of class 4 (a party answers a second, moot request of
+   a logout in progress after it has already answered) or class 5 (a pass of do_logout in which an IdP
+   answered Success over SOAP ends with an exception, so that answer is not recorded) *)
 Theorem c19_response_needs_pending : forall w t0 h,
   guard w t0 (run w t0 h) -> spec_cl cl_pending w t0 (run w t0 h).
 Proof. exact pending_holds. Qed.
 Print Assumptions c19_response_needs_pending.
 
-(* the session ends exactly when the last involved IdP has answered or the deadline has passed —
-   outside the open finding classes *)
+(* the session ends exactly when the last involved IdP has answered (front channel or SOAP) or the deadline
+   has passed — outside the open finding classes *)
 Theorem c19_session_ends_iff_last_answer_or_deadline : forall w t0 h,
   guard w t0 (run w t0 h) -> spec_cl cl_ends w t0 (run w t0 h).
 Proof. exact ends_holds. Qed.
@@ -73,31 +73,37 @@ Proof. exact spec_split. Qed.
 Print Assumptions c19_spec_clauses.
 
 (* the code as it is violates the property in the two open classes (faithful model):
-   1 SOAP global logout does no bookkeeping; 4 a second answer of a party to a moot request of a
-   logout in progress consumes that request (ValueError) *)
-Theorem c19_soap_refuted : exists w t0 h, first_trigger w t0 (run w t0 h) = 1 /\ ~ spec w t0 (run w t0 h).
-Proof. exact soap_refuted. Qed.
-Print Assumptions c19_soap_refuted.
-
+   4 a second answer of a party to a moot request of a logout in progress consumes that request (ValueError);
+   5 a Success answer over SOAP given in a pass that then raises is forgotten *)
 Theorem c19_moot_request_refuted : exists w t0 h, first_trigger w t0 (run w t0 h) = 4 /\ ~ spec w t0 (run w t0 h).
 Proof. exact moot_refuted. Qed.
 Print Assumptions c19_moot_request_refuted.
 
-(* the behaviour before the fixes violated it (run_v0 party purge; false = that fix reverted):
+Theorem c19_forgotten_soap_answer_refuted : exists w t0 h, first_trigger w t0 (run w t0 h) = 5 /\ ~ spec w t0 (run w t0 h).
+Proof. exact forgotten_refuted. Qed.
+Print Assumptions c19_forgotten_soap_answer_refuted.
+
+(* the behaviour before the fixes violated it (run_v0 party purge soap; false = that fix reverted):
+   class 1, before 0bae05f7 a SOAP global logout did no bookkeeping;
    class 2, before de5f1fed an answer from another party than the one asked was honoured;
    class 3, before 73294247 the answer to a request of an abandoned logout ended a new session *)
+Theorem c19_soap_v0_refuted : exists w t0 h,
+  first_any_trigger w t0 (run_v0 true true false w t0 h) = 1 /\ ~ spec w t0 (run_v0 true true false w t0 h).
+Proof. exact soap_v0_refuted. Qed.
+Print Assumptions c19_soap_v0_refuted.
+
 Theorem c19_wrong_party_v0_refuted : exists w t0 h,
-  first_any_trigger w t0 (run_v0 false true w t0 h) = 2 /\ ~ spec w t0 (run_v0 false true w t0 h).
+  first_any_trigger w t0 (run_v0 false true true w t0 h) = 2 /\ ~ spec w t0 (run_v0 false true true w t0 h).
 Proof. exact wrong_party_v0_refuted. Qed.
 Print Assumptions c19_wrong_party_v0_refuted.
 
 Theorem c19_stale_answer_v0_refuted : exists w t0 h,
-  first_any_trigger w t0 (run_v0 true false w t0 h) = 3 /\ ~ spec w t0 (run_v0 true false w t0 h).
+  first_any_trigger w t0 (run_v0 true false true w t0 h) = 3 /\ ~ spec w t0 (run_v0 true false true w t0 h).
 Proof. exact stale_v0_refuted. Qed.
 Print Assumptions c19_stale_answer_v0_refuted.
 
-(* run_v0 with both fixes is the model *)
-Theorem c19_v0_fixed_is_model : forall w t0 h, run_v0 true true w t0 h = run w t0 h.
+(* run_v0 with all fixes is the model *)
+Theorem c19_v0_fixed_is_model : forall w t0 h, run_v0 true true true w t0 h = run w t0 h.
 Proof. exact run_v0_fixed. Qed.
 Print Assumptions c19_v0_fixed_is_model.
 
